@@ -634,6 +634,13 @@ func scenarios() []hx.Scenario {
 	for _, sc := range [][]op{{A1, U, Z25, E, P, Z10}, {U, A1, A2, Z25, R0, Z10, P}} {
 		add("run ", append(append([]op(nil), sc...), G), tl, false)
 	}
+	// Entries right after a restart (before the first wake-up of the new run),
+	// with the clock moved and entries added or removed while stopped
+	for _, mid := range [][]op{{Z25}, {Z25, A2}, {Z5, R0, Z25}, {A2, Z25, R0}} {
+		sc := append([]op{A1, A2, S, Z5, E, P}, mid...)
+		sc = append(sc, S, E, Z10, E)
+		add("restart-entries ", append(sc, G), tl, false)
+	}
 	// a job that is still running across Stop / Start / Stop: every Stop's context
 	// waits for it, whichever run started it
 	for _, ent := range [][]op{{A3b}, {A3b, A1}} {
